@@ -212,6 +212,9 @@ class BlockParser:
 				other_index = other_tokens.find(text[index])
 				if len(other_closes) > 0 and other_closes[-1] == other_tokens[other_index]:
 					other_closes.pop()
+				elif len(other_closes) > 0 and other_closes[-1] in '"\'':
+					# 文字列の内部。閉じ引用符以外の括弧・引用符は無視する
+					pass
 				elif other_index % 2 == 0:
 					other_closes.append(other_tokens[other_index + 1])
 
